@@ -1197,10 +1197,9 @@ def rule_every_line_painted(ctx, crate, rule="R-EVERY-LINE-PAINTED"):
                   "the paint loop can go on to the next line without writing the current one (and without its newline / last-line filler)", cfg)
 
 
-def rule_painted_line_terminated(ctx, crate, rule="R-PAINTED-LINE-TERMINATED"):
-    """Every line of printed text the paint routine writes is *terminated* before the frame is flushed (a line that the same
-    iteration identifies as a bar line is exempt: leaving the cursor behind the last painted bar of a truncated frame is what
-    the library does and the next erase copes with it): after the line's own `write_str`
+def rule_painted_line_terminated(ctx, crate, rule="R-PAINTED-LINE-TERMINATED", kinds=("text", "bar")):
+    """Every line the paint routine writes is *terminated* before the frame is flushed; the obligation is checked separately for
+    printed text (`terminated#k`) and for bar lines (`bar-terminated#k`, a known finding on this tree): after the line's own `write_str`
     comes either the newline that precedes the next painted line (`write_line`) or the end-of-frame filler that parks the
     cursor at the right edge (a `write_str` of a `repeat`ed string). Otherwise the cursor is left in the middle of that line
     and whatever is written next (the next frame, the user's own output) is glued to it — for a text line that means a
@@ -1257,13 +1256,15 @@ def rule_painted_line_terminated(ctx, crate, rule="R-PAINTED-LINE-TERMINATED"):
                 return st["lhs"]["l"], env[x]
         return None
     # LineType tests: passing the Bar-only edge of one *within the iteration that painted the line* says the painted line is a bar
-    bar_edges = set()
+    bar_edges, text_edges = set(), set()
     for sb, t, pl, d in K.discr_switches(pb):
         if K.head_of_type(pl.get("ty", "")) != LINETYPE:
             continue
         for tgt, vs in K.edge_variants(crate, t, LINETYPE).items():
             if vs == {"Bar"}:
                 bar_edges.add((sb, tgt))
+            elif vs and "Bar" not in vs:
+                text_edges.add((sb, tgt))
     next_bbs = {x.bb for x in pb.calls(r"std::iter::Iterator::next")}
     # the loop's own exhaustion exit is fine when the filler is tied to the last line by `index + 1 == lines.len()` (the last
     # iteration then wrote it): edges `next() == None` of a loop over lines.iter().enumerate() that contains such a filler
@@ -1311,7 +1312,8 @@ def rule_painted_line_terminated(ctx, crate, rule="R-PAINTED-LINE-TERMINATED"):
             return succs
         tgt = [tb for v, tb in t["targets"] if v == val] or [t["otherwise"]]
         return [x for x in succs if x == tgt[0]]
-    for k, c in enumerate(paints):
+    for k, (c, kind) in enumerate([(c_, kd) for c_ in paints for kd in ("text", "bar") if kd in kinds]):
+        skip_edges = bar_edges if kind == "text" else text_edges
         # walk from the continuation of the paint call; the environment holds what was assigned since
         seen = set()
         start = pb.term(c.bb).get("t")
@@ -1343,17 +1345,56 @@ def rule_painted_line_terminated(ctx, crate, rule="R-PAINTED-LINE-TERMINATED"):
             if tt and tt["k"] == "call" and not tt["dest"]["p"] and tt["dest"]["l"] in env:
                 del env[tt["dest"]["l"]]
             for x in feasible_succ(bb, env):
-                if same_iter and (bb, x) in bar_edges:
-                    continue        # the line just painted is a bar line: the obligation is about printed text
+                if same_iter and (bb, x) in skip_edges:
+                    continue        # the line just painted is of the other kind
                 if (bb, x) in done_edges:
                     continue        # all lines painted: the last iteration wrote the filler
                 work.append((x, frozenset(env.items()), same_iter))
                 if os.environ.get("VERIF_DEBUG_TERMINATED"):
                     trail.setdefault((x, frozenset(env.items()), same_iter), (trail.get((bb, envf, same_iter)) or []) + [bb])
-        ctx.check(leak is None, rule, "terminated#%d" % k, pb.name, c.loc(),
-                  "after a line is written, flush() is reached only through the next line's newline or the end-of-frame filler",
-                  "a painted line can be followed by flush() with neither a newline nor the end-of-frame filler (the height test leaves the loop right after it): "
-                  "the cursor stays in the middle of that line and the next frame is appended to it (a println'ed line above an oversized bar reads \"log 1aaa\")", cfg)
+        if kind == "text":
+            ctx.check(leak is None, rule, "terminated#%d" % (k // len(kinds)), pb.name, c.loc(),
+                      "after a line of printed text is written, flush() is reached only through the next line's newline or the end-of-frame filler",
+                      "a painted line can be followed by flush() with neither a newline nor the end-of-frame filler (the height test leaves the loop right after it): "
+                      "the cursor stays in the middle of that line and the next frame is appended to it (a println'ed line above an oversized bar reads \"log 1aaa\")", cfg)
+        else:
+            ctx.check(leak is None, rule, "bar-terminated#%d" % (k // len(kinds)), pb.name, c.loc(),
+                      "after a bar line is written, flush() is reached only through the next line's newline or the end-of-frame filler",
+                      "the last bar line painted before the terminal-height test cuts the frame short gets no end-of-frame filler: the cursor stays behind it. The next erase "
+                      "copes with that as long as the row is still counted, but when all painted rows are handed over as zombie rows (finished head bars dropped) the row count is 0 "
+                      "and the next frame is glued to the kept row (2x20 terminal, A = \"a1\\na2\", B = \"b\": tick both, finish+drop A, tick B shows \"a2b\")", cfg)
+
+
+def rule_cr_needs_rows(ctx, crate, rule="R-ERASE-STAYS-IN-REGION"):
+    """The erase phase may only touch rows of the region. With a previous row count of zero the region is empty and the cursor
+    still sits on the row the previous output ended on (parked at its right edge by the end-of-frame filler): a carriage
+    return written then goes back to the start of *that* row, and the frame is painted over it. Every `write_str("\\r")` of
+    the paint routine must be dominated by a test that the previous row count is non-zero."""
+    cfg = crate.config
+    b = the_emitter(ctx, crate, rule)
+    if not b:
+        return
+    p = count_param(b)
+    if p is None:
+        ctx.lost(rule, cfg, "emitter has no unique &mut VisualLines parameter")
+        return
+    crs = [c for c in tl_calls(b, "write_str") if len(c.args) > 1 and b.slice_args(c, [1], through_calls=False).consts() & {"\r"}]
+    for k, c in enumerate(crs):
+        guarded = False
+        for sb, t in b.switches():
+            sl = b.slice(t["op"], at=sb)
+            if p not in sl.locals:
+                continue
+            cs = {x for x in sl.consts() if isinstance(x, int) and not isinstance(x, bool)}
+            if not (cs & {0, 1}) or not [a for a in sl.atoms if a[0] == "binop" and a[1] in ("Eq", "Ne", "Gt", "Ge", "Lt", "Le")]:
+                continue
+            if any(b.edge_dominates((sb, x), c.bb) for x in b.succ(sb)):
+                guarded = True
+        ctx.check(guarded, rule, "carriage-return-on-empty-region#%d" % k, b.name, c.loc(),
+                  "the carriage return of the erase phase is written only when the region has rows",
+                  "the erase phase writes \"\\r\" also when the previous row count is 0 (move_cursor mode): the cursor is still on the row the previous output ended on, "
+                  "so the frame is painted over that row - mp.set_move_cursor(true); mp.println(\"hello\"); bar.tick() replaces \"hello\" by the bar", cfg)
+    ctx.extra.setdefault("erase_cr_sites", {})[cfg] = len(crs)
 
 
 def rule_rows_finite(ctx, crate, rule="R-ROWS-FINITE"):
